@@ -57,7 +57,7 @@ func capScript(sc *cScript) {
 	b := init
 	total := 0.0
 	for i, a := range sc.Attempts {
-		total += float64(a.Latency)
+		total += float64(a.Latency) + float64(a.StreamDelay)
 		if a.Kind == "stream" {
 			b = init
 			for _, rv := range interpretAttempt(a, "").Retries {
@@ -428,6 +428,10 @@ func TestC12(t *testing.T) {
 			a := cGenAttempt(rng, true, rejects, false)
 			if rng.IntN(6) == 0 {
 				a.Latency = int64(rng.IntN(int(20 * ms)))
+			}
+			if a.Kind == "stream" && a.CancelAtOff < 0 && rng.IntN(5) == 0 {
+				// the connection stays quiet for a while before the stream begins
+				a.StreamDelay = []int64{3 * ms, 50 * ms, int64(time.Second), int64(30 * time.Second)}[rng.IntN(4)]
 			}
 			sc.Attempts = append(sc.Attempts, a)
 		}
